@@ -152,4 +152,39 @@ def check : St → List Step → Option (String × String)
       if s.hsFailed && !failed then some ("sticky-handshake", "Handshake succeeded after it had failed")
       else check { s with hsFailed := s.hsFailed || failed } rest
 
+/-! ### `Dialer.DialContext` against a peer that stalls
+
+"cancelling the handshake context aborts the handshake with the context's error": the context of a
+dial is the one the caller hands to `DialContext`, bounded in addition by the `Timeout` / `Deadline`
+of the `net.Dialer` when there is one.  Whichever of them ends first while the peer has accepted
+the TCP connection but does not carry the handshake on, the call comes back (the driver gives it
+2 s) with that context's error. -/
+
+/-- what ended the dial -/
+inductive DialEnd
+  | callerCancel     -- the caller's CancelFunc (before the call or while it waits)
+  | callerDeadline   -- the deadline of the caller's context
+  | dialerTimeout    -- the net.Dialer's own Timeout / Deadline; the caller's context never ends
+  deriving DecidableEq, Repr
+
+/-- `res`: class of what the call returned (`ctx` = errors.Is context.Canceled, `ctxdl` = errors.Is
+context.DeadlineExceeded, `timeout` = another net.Error with Timeout(), `ok`, `blocked` = it had
+not returned when the driver stopped waiting); `prompt`: it returned within the bound. -/
+def checkDial (why : DialEnd) (res : String) (prompt : Bool) : Option (String × String) :=
+  if !prompt || res == "blocked" then
+    some ("dial-not-aborted", "the context of the dial ended while the peer stalled in the handshake, but DialContext did not return")
+  else if res == "ok" then
+    some ("dial-not-aborted", "DialContext reported success against a peer that never finished the handshake")
+  else match why with
+    | .callerCancel =>
+      if res == "ctx" then none
+      else some ("dial-ctx-error", s!"the caller's context was cancelled but DialContext returned {res}, not the context's error")
+    | .callerDeadline =>
+      if res == "ctxdl" then none
+      else some ("dial-ctx-error", s!"the caller's context ran into its deadline but DialContext returned {res}, not the context's error")
+    | .dialerTimeout =>
+      -- the dialer's own bound: a timeout error (the derived context's error is one)
+      if res == "ctxdl" || res == "timeout" then none
+      else some ("dial-ctx-error", s!"the dialer's timeout expired but DialContext returned {res}, not a timeout")
+
 end Gotlcp.Spec.ConnAPI
